@@ -43,7 +43,7 @@ func runC13(c *Ctx, ev *Evidence) ([]Violation, error) {
 		{"HarnessAttrs_matchRegex", sym.Config{MapOrders: true}},
 		{"HarnessC11_links", sym.Config{Stubs: map[string]string{validURLFn: "stubValidURL"}, Params: map[string]int{"maxAttrs": 2, "allOptions": 0}, SplitMax: 2}},
 		{"HarnessC12_forced", sym.Config{Params: map[string]int{"maxAttrs": 2}, SplitMax: 2}},
-		{"HarnessC03_urls", sym.Config{Params: map[string]int{"schemeEntries": 1, "maxAttrs": 1}}},
+		{"HarnessC03_urls", sym.Config{Params: map[string]int{"schemeEntries": 1, "maxAttrs": 1, "onlyPos": 1}}},
 		{"HarnessC10_styles", sym.Config{Params: map[string]int{"maxDecls": 2, "shapeLo": 3}, Stubs: map[string]string{parseDeclsFn: "stubParseDeclarations", removeUnicodeFn: "stubRemoveUnicode"}}},
 		{"HarnessC13_styleOrder", sym.Config{MapOrders: true, Params: map[string]int{"maxDecls": 1}, Stubs: map[string]string{parseDeclsFn: "stubParseDeclarations", removeUnicodeFn: "stubRemoveUnicode"}}},
 	}
